@@ -239,10 +239,25 @@ fn process_request_obj(request: &Request, dbs: &Arc<Databases>, client: &mut Cli
             Response::Ok {}
         }),
 
-        Request::UnWatchAll {} => apply_to_database(&dbs, &client, &|_db| {
-            unwatch_all(&client.sender, _db);
-            Response::Ok {}
-        }),
+        Request::UnWatchAll {} => {
+            let response = apply_to_database(&dbs, &client, &|_db| {
+                unwatch_all(&client.sender, _db);
+                Response::Ok {}
+            });
+            // Subscriptions made before the session selected another database are still live
+            // there: unwatch-all (and the end of the connection, which sends it) ends them too
+            if let Response::Ok {} = response {
+                let selected = client.selected_db_name();
+                let dbs_map = dbs.map.read().expect("Could not lock the map mutex");
+                for (name, db) in dbs_map.iter() {
+                    let watched = !db.watchers.map.read().unwrap().is_empty();
+                    if watched && Some(name) != selected.as_ref() {
+                        unwatch_all(&client.sender, db);
+                    }
+                }
+            }
+            response
+        }
 
         Request::Watch { key } => apply_if_safe_access(
             &dbs,
